@@ -236,7 +236,7 @@ func c01Request(r *kernel.Run, w *World, tp *kernel.Tape, ids []*Ident, inter, o
 		}
 	}
 	// wrapped / re-wrapped registration info
-	wrapClass := Pick2(tp, "none", "none", "none", "server", "server", "foreign", "server-other-nonce", "server-other-key", "rewrapped", "rewrapped", "rewrapped-unregistered-id", "rewrapped-wrong-id", "rewrapped-other-nonce", "garbage", "garbage-rewrapped", "rewrapped-info-without-key", "rewrapped-other-message-type")
+	wrapClass := Pick2(tp, "none", "none", "none", "server", "server", "foreign", "server-other-nonce", "server-other-key", "rewrapped", "rewrapped", "rewrapped-unregistered-id", "rewrapped-wrong-id", "rewrapped-other-nonce", "garbage", "garbage-rewrapped", "rewrapped-info-without-key", "rewrapped-other-message-type", "sealed-with-storage-wrapper")
 	sp := ReqSpec{Cert: cert, EncPub: enc, Nonce: nonce, NotBefore: now, NotAfter: now.Add(24 * time.Hour)}
 	otherNonce := make([]byte, 32)
 	rand.Read(otherNonce)
@@ -270,6 +270,13 @@ func c01Request(r *kernel.Run, w *World, tp *kernel.Tape, ids []*Ident, inter, o
 		sp.Rewrapped, sp.RewrapKey = rewrap(regInfoFor(nonce, cert.Pkix)), other.KeyId
 	case "rewrapped-other-nonce":
 		sp.Rewrapped, sp.RewrapKey = rewrap(regInfoFor(otherNonce, cert.Pkix)), inter.KeyId
+	case "sealed-with-storage-wrapper":
+		// the server's STORAGE wrapper is another key with another purpose: registration info sealed with it authorizes nothing
+		if w.SW != nil {
+			sp.Wrapped = WrapRegInfo(r, w.SW, nonce, cert.Pkix, nil)
+		} else {
+			sp.Wrapped = WrapRegInfo(r, foreignRW, nonce, cert.Pkix, nil)
+		}
 	case "rewrapped-info-without-key":
 		// sealed by the registered intermediate, right nonce, but no certificate key inside
 		sp.Rewrapped, sp.RewrapKey = rewrap(&types.WrappingRegistrationFlowInfo{Nonce: nonce}), inter.KeyId
